@@ -1,4 +1,5 @@
 import HailVerif.Model.ExprIR
+import HailVerif.Model.FnRegistry
 /-!
 # Typing of the value IR (property C36)
 
@@ -191,6 +192,12 @@ def inferType (Γ : Ctx) (Δ : Option Ctx) : IR → Option HType
     match s with
     | .stream (.tuple (.cons k (.cons v .nil))) => some (.dict k v)
     | .stream (.struct (.cons _ k (.cons _ v .nil))) => some (.dict k v)
+    | _ => none
+  | .applyFn fn args ret => do
+    -- `Apply fn () ret args…`: the engine's `lookupFunction` must find a registered signature that unifies
+    let s ← inferType Γ Δ args
+    match s with
+    | .tuple ts => if FnRegistry.applyOk fn (FnRegistry.typesToList ts) ret then some ret else none
     | _ => none
   | .dictGet d k => do
     let s ← inferType Γ Δ d
